@@ -20,4 +20,4 @@ import native_engine
 with native_engine.NativeCopy() as copy:
     log("warming native release build")
     subprocess.run(["cargo", "test", "--release", "--offline", "--workspace", "--no-run"], cwd=copy.root,
-                   env=dict(native_engine.ENV, CARGO_TARGET_DIR=native_engine.TARGET_DIR), stdout=subprocess.DEVNULL, stderr=subprocess.DEVNULL, timeout=3600)
+                   env=dict(native_engine.ENV, CARGO_TARGET_DIR=native_engine.TARGET_DIR, RUSTFLAGS="-C overflow-checks=on -C debug-assertions=on"), stdout=subprocess.DEVNULL, stderr=subprocess.DEVNULL, timeout=3600)
